@@ -98,8 +98,17 @@ func (l *localExecutor) Run(task *Task) {
 	task.Unlock()
 }
 
-func (l *localExecutor) depReaders(ctx context.Context, task *Task) ([]sliceio.Reader, error) {
-	in := make([]sliceio.Reader, 0, len(task.Deps))
+func (l *localExecutor) depReaders(ctx context.Context, task *Task) (in []sliceio.Reader, err error) {
+	// The dependencies' combiner is user code that runs here, before the
+	// task itself: contain its panics as bufferOutput does for the task's.
+	defer func() {
+		if e := recover(); e != nil {
+			stack := debug.Stack()
+			err = fmt.Errorf("panic while evaluating slice: %v\n%s", e, string(stack))
+			in, err = nil, errors.E(err, errors.Fatal)
+		}
+	}()
+	in = make([]sliceio.Reader, 0, len(task.Deps))
 	for _, dep := range task.Deps {
 		reader := new(multiReader)
 		reader.q = make([]sliceio.Reader, dep.NumTask())
